@@ -40,7 +40,8 @@ def pairs_mem(x, c, U):
     elif c["eq"] == "rnd":
         b = bytearray(expand(c["seed"] + "b", n))
     a, b = bytes(a), bytes(b)
-    A, B = x.buf(a), x.buf(b)
+    al = c.get("al", 0)             # operands at every alignment relative to the machine word (a regular routine may not switch method on it)
+    A, B = x.buf(bytes(al % 8) + a).at(al % 8), x.buf(bytes(al // 8) + b).at(al // 8)
     U(A); U(B)
     for fn in ("memEq", "memCmp", "memCmpRev"):
         rs = x.call(fn, A, B, n, ret="si")
@@ -215,7 +216,7 @@ def run_diff(ctx, c):
 
 S_DIFF = st.fixed_dictionaries({
     "fam": st.sampled_from(sorted(FAMS)), "seed": st.binary(min_size=1, max_size=3).map(bytes.hex), "nb": st.integers(0, 70), "n": st.integers(0, 16), "m": st.integers(0, 16),
-    "a": int_spec(16), "b": int_spec(16), "w": int_spec(1), "mod": mod_spec(8), "eq": st.sampled_from(["same", "diff", "diff", "rnd"]), "pos": st.integers(0, 5000)})
+    "a": int_spec(16), "b": int_spec(16), "w": int_spec(1), "mod": mod_spec(8), "eq": st.sampled_from(["same", "diff", "diff", "rnd"]), "pos": st.integers(0, 5000), "al": st.integers(0, 63)})
 
 
 # ------------------------------------------------------------------ (b) memcheck
@@ -288,7 +289,7 @@ def run_ct(ctx, c):
     else:
         ct_entry(ctx, v, x, c, U, before)
     ctx.cls("ct_" + fam)
-    ctx.nontrivial("ct", fam, c["eq"], c["n"], c["nb"] // 8, c["pos"] % 16)
+    ctx.nontrivial("ct", fam, c["eq"], c["n"], c["nb"] // 8, c["pos"] % 16, c.get("al", 0) % 8)
     ctx.sample(c)
 
 
@@ -329,7 +330,8 @@ def ct_entry(ctx, v, x, c, U, before):
         t = bytearray(t if tl is None else t[:tl])
         if wrong and t:
             t[c["pos"] % len(t)] ^= 1 + c["pos"] % 200
-        B = x.buf(bytes(t)); U(B)
+        al = c.get("al", 0) % 8     # the caller's tag need not be word aligned
+        B = x.buf(bytes(al) + bytes(t)).at(al); U(B)
         return B
     if e in ("MACStepV", "MACStepV2"):
         o = x.out(8); x.call("beltMAC", o, x.buf(data), n, x.buf(key), 32); tag = o.read()
@@ -431,7 +433,7 @@ def ct_entry(ctx, v, x, c, U, before):
 
 S_CT = st.fixed_dictionaries({
     "fam": st.sampled_from(sorted(FAMS) + ENTRY), "seed": st.binary(min_size=1, max_size=3).map(bytes.hex), "nb": st.integers(0, 70), "n": st.integers(0, 16), "m": st.integers(0, 16),
-    "a": int_spec(16), "b": int_spec(16), "w": int_spec(1), "mod": mod_spec(8), "eq": st.sampled_from(["same", "diff", "diff", "rnd"]), "pos": st.integers(0, 5000)})
+    "a": int_spec(16), "b": int_spec(16), "w": int_spec(1), "mod": mod_spec(8), "eq": st.sampled_from(["same", "diff", "diff", "rnd"]), "pos": st.integers(0, 5000), "al": st.integers(0, 63)})
 
 
 def tests(tier):
